@@ -1,6 +1,8 @@
 (* C05 — Offers are held, leases last as long as advertised, addresses are stable.  Statements only. *)
 From PSA Require Import gen.GoFacts model.Bytes model.Clients model.Ipdb model.Dhcp spec.SpecTable spec.SpecIpdb model.Server
   proofs.TableProofs proofs.LeaseProofs proofs.ServerProofs.
+From PSA Require Import spec.Monitors.
+From PSA Require Import spec.WireHyps spec.WireExample proofs.WireProofs proofs.WireInv proofs.WireLease proofs.WireSnap proofs.WireHypsProofs proofs.WireExampleProofs.
 Open Scope N_scope.
 
 (* (i) once an address is offered (held), the REQUEST for it arriving within the hold is acknowledged: the
@@ -75,6 +77,35 @@ Theorem C05_update_reserves : forall x now ip d ttl t t' n, unique_live now t ->
   exists p e, nth_error t' p = Some e /\ e_ip e = n /\ e_duid e = d /\ e_until e = (now + ttl)%Z.
 Proof. exact update_reserves. Qed.
 Print Assumptions C05_update_reserves.
+
+(* ON THE WIRE, over whole histories: on every accepted history mon_C05 holds, i.e. all five clauses of the property as the
+   monitors read them off frames and table listings:
+   (i)  c05_hold: a selecting REQUEST for the address last offered to that client, arriving within the hold time counted from
+        the OFFER's transmission, with no foreign ARP answer for it, is acknowledged with that address in its round;
+   (ii) c05_scan: after an ACK of x to a client every OFFER/ACK to that client sent before the lease has elapsed since the
+        arrival of that request carries x;
+   ack_reserved: the listing after an ACK shows the address bound at least until the advertised lease time after the ACK left;
+   c05_monotone: a binding or pending offer listed after one round is listed after the next - same address, same client, running at
+        least as long - unless it has run out ("no message from it or from anyone else shortens that");
+   c05_silence: a broadcast DISCOVER of an unreserved, unbound client goes unanswered only if no address of the dynamic range is a
+        host address, free in the listing before the packet and not answered for by a foreign host in this round.
+   The acceptor (model/Server.v) is what every run compares the implementation with, round by round (tag 101); the premises
+   are boolean conditions (spec/WireHyps.v) evaluated on every generated history (tag 220, Cxx_premises below); the rounds are
+   sequential with a table listing after each (interleavings: the theorems over operation histories above). *)
+Theorem C05_on_the_wire : forall c h, cfg_wire_ok c -> cfg_srv_ok c -> cfg_lease_ok c -> durations_ok c -> Forall wf_round h ->
+  snap_times 0%Z h -> accepted c h -> mon_C05 c h = true.
+Proof. exact accepted_history_c05. Qed.
+Print Assumptions C05_on_the_wire.
+
+Theorem C05_premises : forall c h, wire_hyps c h = true -> wire_premises c h.
+Proof. exact wire_hyps_premises. Qed.
+Print Assumptions C05_premises.
+
+(* the premises hold of, and the acceptor accepts, a recorded history of the real server (OFFER, ACK, NAK on an ARP conflict, silent rounds) *)
+Theorem C05_wire_nonvacuous : exists c h, wire_example = Some (c, h) /\ wire_premises c h /\ accepted c h /\
+  length h = 6%nat /\ length (events c h) = 2%nat /\ length (flat_map r_outs h) = 3%nat.
+Proof. exact wire_example_full. Qed.
+Print Assumptions C05_wire_nonvacuous.
 
 Example C05_nonvacuous :
   let x := {| net_from := 10; net_to := 20; dyn_from := 12; dyn_to := 13; st := empty_store |} in
